@@ -16,11 +16,12 @@ PID = "C14"
 QUICK = ["1x1", "1x4", "2x2:rmw:j", "2x8", "3x3:rmw:j", "4x4:rmw:j", "4x8",
          "2x4:save", "3x2:save:j", "4x2:save",
          "4x4:fresh", "3x8:fresh", "4x2:fresh:j", "2x8:fresh",
+         "3x4:clear", "2x4:clear:j",     # clear: long-lived writer objects; updates that set / CLEAR ExtraData between the others' single-field updates
          "3x4:final", "4x4:final:j"]   # final: >= 3 parties keep updating a record that is and stays in a final state   # fresh: nobody creates the record, the first updates race on an absent file
 THOROUGH_TLC = ["1x1", "1x8", "2x1:rmw:j", "2x2:rmw:j", "2x8:rmw:j", "3x3:rmw:j", "3x8", "4x1:rmw:j", "4x2:rmw:j", "4x4:rmw:j", "4x8:rmw:j",
                 "1x4:save", "2x4:save:j", "3x2:save:j", "4x2:save:j", "4x4:save:j",
                 "4x4:fresh", "3x8:fresh", "4x2:fresh:j", "2x8:fresh", "4x8:fresh", "2x2:fresh", "3x3:fresh:j", "4x4:fresh:j",
-                "3x4:final", "4x4:final:j", "4x8:final", "3x3:final:j"]
+                "3x4:final", "4x4:final:j", "4x8:final", "3x3:final:j", "3x4:clear", "2x4:clear:j", "4x4:clear", "4x8:clear:j"]
 THOROUGH_BULK = ["4x8:rmw:j", "4x8", "3x8:rmw:j", "2x8:rmw:j", "4x4:save:j"]
 
 
@@ -70,11 +71,14 @@ def _run(tier, seed, replay=None):
         raise vlib.Inconclusive("TLC did not succeed on the fresh-file configuration (exit %s, violated=%s)" % (rf.exit, rf.violated))
     for name, inv in (("StatusFile_wit_noloadlock.cfg", "NoTornRead"), ("StatusFile_wit_nosavelock.cfg", "NoTornRead"),
                       ("StatusFile_wit_noreread.cfg", "NoLostUpdate"), ("StatusFile_wit_statbeforelock.cfg", "NoLostUpdate"),
-                      ("StatusFile_wit_unlinklock.cfg", "Mutex")):
+                      ("StatusFile_wit_unlinklock.cfg", "Mutex"), ("StatusFile_wit_keepabsent.cfg", "ReadReplacesAll")):
         w = vlib.tlc("StatusFileMC", name, wd, timeout=600)
         if w.violated != inv:
             raise vlib.Inconclusive("variant %s did not violate %s (exit %s)" % (name, inv, w.exit))
         variants[name] = inv
+    ro = None
+    if tier != "quick":
+        ro = vlib.tlc_must_pass("StatusFileMC", "StatusFile_opt.cfg", wd, timeout=1500)   # updates that clear a field: ReadReplacesAll
     wit = vlib.witnesses("StatusFileMC", "StatusFile_quick.cfg", [] if tier == "quick" else ["W_NoContention", "W_NoTwoUpdates", "W_NoLoadOfRec", "W_AllDone"], wd)
 
     # ---- (B) conformance of the real code
@@ -131,6 +135,7 @@ def _run(tier, seed, replay=None):
         "samples": samples[:4], "exhaustive": False,
         "tlc": {"spec": "StatusFile.tla", "cfg": cfg, "generated": r.generated, "distinct": r.distinct, "depth": r.depth, "wall_s": round(r.wall, 1)},
         "tlc_fresh_file": {"cfg": "StatusFile_fresh.cfg", "generated": rf.generated, "distinct": rf.distinct, "wall_s": round(rf.wall, 1)},
+        "tlc_clearable_field": ({"cfg": "StatusFile_opt.cfg", "generated": ro.generated, "distinct": ro.distinct} if ro else None),
         "variants_violated": variants, "witnesses": wit,
         "trace_validation": tlc_runs, "trace_events_total": tot["events"], "trace_events_validated_by_tlc": tot["tlc_events"],
         "counters": tot["counters"], "configurations": allruns,
